@@ -55,12 +55,30 @@ func vMakeLeaf() (spec.Schema, vLeafSpec) {
 		v := l.f64
 		s.Minimum = &v
 		s.ExclusiveMinimum = l.excl
-	default:
+	case 6:
 		s.Type = spec.StringOrArray{"number"}
 		l.f64 = vF64("leaf.multipleOf")
 		vAssume(l.f64 > 0)
 		v := l.f64
 		s.MultipleOf = &v
+	case 7: // array whose only constraint is maxItems (0 is a legal, meaningful bound)
+		s.Type = spec.StringOrArray{"array"}
+		s.Items = &spec.SchemaOrArray{Schema: spec.StringProperty()}
+		l.i64 = vI64("leaf.maxItems")
+		vAssume(l.i64 >= 0)
+		v := l.i64
+		s.MaxItems = &v
+	case 8: // array whose only constraint is minItems
+		s.Type = spec.StringOrArray{"array"}
+		s.Items = &spec.SchemaOrArray{Schema: spec.StringProperty()}
+		l.i64 = vI64("leaf.minItems")
+		vAssume(l.i64 >= 1)
+		v := l.i64
+		s.MinItems = &v
+	default: // array with uniqueItems
+		s.Type = spec.StringOrArray{"array"}
+		s.Items = &spec.SchemaOrArray{Schema: spec.StringProperty()}
+		s.UniqueItems = true
 	}
 	return s, l
 }
@@ -81,8 +99,14 @@ func vCheckLeaf(g *GenSchema, l vLeafSpec, where string) {
 		vAssert(g.Maximum != nil && *g.Maximum == l.f64 && g.ExclusiveMaximum == l.excl, where+": maximum lost or changed")
 	case 5:
 		vAssert(g.Minimum != nil && *g.Minimum == l.f64 && g.ExclusiveMinimum == l.excl, where+": minimum lost or changed")
-	default:
+	case 6:
 		vAssert(g.MultipleOf != nil && *g.MultipleOf == l.f64, where+": multipleOf lost or changed")
+	case 7:
+		vAssert(g.MaxItems != nil && *g.MaxItems == l.i64, where+": maxItems lost or changed")
+	case 8:
+		vAssert(g.MinItems != nil && *g.MinItems == l.i64, where+": minItems lost or changed")
+	default:
+		vAssert(g.UniqueItems, where+": uniqueItems lost")
 	}
 }
 
